@@ -455,11 +455,93 @@ func init() {
 				}
 			}
 			// long buffers (size-threshold paths), shallower
-			for _, sh := range [][3]int{{2, 0, 16}, {1, 5, 40}, {3, 2, 300}} {
+			for _, sh := range [][3]int{{2, 0, 16}, {1, 5, 40}, {3, 2, 500}, {1, 0, 1025}} {
 				for _, t := range []int{dyn.Int16, dyn.Float32} {
 					run(c10Cfg{t, sh[0], sh[1], sh[2], depthAll - 1, 2}, false)
 				}
 			}
+			// long linear histories, every step checked, no state deduplication: state the implementation
+			// may keep across calls (a counter, a cache) is not part of the model key, so the search
+			// above cannot drive it far; these runs can.
+			var longSteps int64
+			longRun := func(t int, sh [3]int, variant int) {
+				cs := c10Case{T: tn(t), C: sh[0], L: sh[1], K: sh[2]}
+				w, unbind := newPWorld(cs)
+				defer unbind()
+				step := func(o pop) bool {
+					cs.Ops = append(cs.Ops, o)
+					longSteps++
+					if fs := w.apply(o); len(fs) > 0 {
+						for k := range fs {
+							fs[k].Msg = fmt.Sprintf("[PoolAlloc[%s](C=%d,L=%d,K=%d)] long history of %d steps ending in %v :: %s", cs.T, cs.C, cs.L, cs.K, len(cs.Ops), cs.Ops[max0(len(cs.Ops)-6):], fs[k].Msg)
+						}
+						c.Fail(cs, fs...)
+						return false
+					}
+					return true
+				}
+				uses := []string{"asample", "stampall", "set", "appendbuf", "reslice0", "resliceK", "none"}
+				for round := 0; round < 300; round++ {
+					nf := w.nfree()
+					ans := nf // New
+					switch {
+					case nf > 0 && variant%3 == 0:
+						ans = nf - 1
+					case nf > 0 && variant%3 == 1:
+						ans = (round * 7) % (nf + 1)
+					case nf > 0 && round%4 != 0:
+						ans = 0
+					}
+					if !step(pop{K: "get", A: ans}) {
+						return
+					}
+					h := len(w.out) - 1
+					p := w.out[h]
+					switch u := uses[(round+variant)%len(uses)]; u {
+					case "asample":
+						if !step(pop{K: "asample", H: h}) {
+							return
+						}
+					case "stampall":
+						if len(p.cells) > 0 && !step(pop{K: "stampall", H: h}) {
+							return
+						}
+					case "set":
+						if len(p.cells) > 0 && !step(pop{K: "set", H: h, A: 2}) {
+							return
+						}
+					case "appendbuf":
+						if p.n%cs.C == 0 && p.n+cs.C <= len(p.cells) && !step(pop{K: "appendbuf", H: h}) {
+							return
+						}
+					case "reslice0":
+						if p.n != 0 && !step(pop{K: "reslice", H: h, A: 0}) {
+							return
+						}
+					case "resliceK":
+						if p.n != len(p.cells) && !step(pop{K: "reslice", H: h, A: len(p.cells) / cs.C}) {
+							return
+						}
+					}
+					if variant >= 3 && round%5 == 4 && len(w.out) < 2 {
+						continue // keep this one checked out for a round: two buffers outstanding
+					}
+					for len(w.out) > 0 {
+						if !step(pop{K: "put", H: len(w.out) - 1}) {
+							return
+						}
+					}
+				}
+			}
+			for _, sh := range [][3]int{{1, 0, 2}, {2, 1, 2}, {3, 1, 1}, {2, 0, 16}, {1, 5, 40}, {3, 2, 500}, {2, 0, 2500}} {
+				for _, t := range []int{dyn.Int8, dyn.Int32, dyn.Float64} {
+					for variant := 0; variant < 6; variant++ {
+						longRun(t, sh, variant)
+					}
+				}
+			}
+			trans += longSteps
+			c.Set("long_linear_history_steps", longSteps)
 			c.Set("states", states)
 			c.Set("transitions", trans)
 			c.Set("traces_validated_against_impl", trans+conf)
@@ -468,7 +550,7 @@ func init() {
 			c.Set("evaluations", trans)
 			c.Set("distinct_nontrivial", states)
 			c.Set("configs", report)
-			c.Set("rule", "breadth-first search over histories of {get (environment answer: any pooled item or New), appendSample, append of one frame (may grow and leave the pool's storage), stamp the whole capacity, set first/at-length/last cell, reslice from frame 0 to every length, put} on one pool with <= 3 buffers outstanding, for 7 small allocator shapes x 13 element types and 3 long ones (16, 40, 300 frames) x 2 types; every Get is judged: shape, bit depth, zero over the whole capacity, handle distinct from and storage disjoint from every outstanding buffer; states deduplicated by a canonical key that keeps what each pooled item held when it was put")
+			c.Set("rule", "breadth-first search over histories of {get (environment answer: any pooled item or New), appendSample, append of one frame (may grow and leave the pool's storage), stamp the whole capacity, set first/at-length/last cell, reslice from frame 0 to every length, put} on one pool with <= 3 buffers outstanding, for 7 small allocator shapes x 13 element types and 4 long ones (16, 40, 500, 1025 frames; up to 5000 samples in the long linear histories) x 2 types; every Get is judged: shape, bit depth, zero over the whole capacity, handle distinct from and storage disjoint from every outstanding buffer; states deduplicated by a canonical key that keeps what each pooled item held when it was put")
 			c.Assume("sync.Pool is replaced by the overlay-injected shim whose Get may return any pooled item or call New (an over-approximation of sync.Pool, incl. items dropped by the GC); the histories of two element types are re-run on the real sync.Pool (shim pass-through) as conformance check", "use after put and double put are outside the property's domain")
 		},
 		RunCase: func(c *core.Ctx, raw json.RawMessage) []F {
